@@ -182,18 +182,20 @@ Proof.
 Qed.
 Print Assumptions C08_values.
 
-(* L1NormViewAsReal.forward equals the documented |Wr Re(x-b)| + |Wi Im(x-b)| except for a complex weight on real x, b *)
+(* L1NormViewAsReal.forward equals the documented |Wr Re(x-b)| + |Wi Im(x-b)| for every combination of real / complex
+   weight and data (wc, dc are the dtype flags the code branches on) *)
 Theorem C08_values_l1viewasreal : forall (wc dc : bool) w b x,
-  (wc = false -> snd w = 0) -> (dc = false -> snd x = 0 /\ snd b = 0) -> (wc = true -> dc = true) ->
+  (wc = false -> snd w = 0) -> (dc = false -> snd x = 0 /\ snd b = 0) ->
   l1r_val_code wc dc w b x = l1r_val (fst w) (if wc then snd w else fst w) b x.
 Proof. exact l1r_val_code_ok. Qed.
 Print Assumptions C08_values_l1viewasreal.
 
-(* ... and for a complex weight on real data the code returns |w| |x-b| instead of |Re w| |x-b|  (finding KF-C08-1) *)
-Theorem C08_values_l1viewasreal_refuted : exists w b x,
-  snd x = 0 /\ snd b = 0 /\ l1r_val_code true false w b x <> l1r_val (fst w) (snd w) b x.
-Proof. exact l1r_val_code_refuted. Qed.
-Print Assumptions C08_values_l1viewasreal_refuted.
+(* Legacy (before repair f138c0a, former finding KF-C08-1): with |w| |x-b| for a complex weight on real data the
+   statement above was false *)
+Theorem C08_legacy_values_l1viewasreal_refuted : exists w b x,
+  snd x = 0 /\ snd b = 0 /\ l1r_val_code_legacy true false w b x <> l1r_val (fst w) (snd w) b x.
+Proof. exact l1r_val_code_legacy_refuted. Qed.
+Print Assumptions C08_legacy_values_l1viewasreal_refuted.
 
 (* ---- scaled functionals: (a f) has value a * f, prox_{sigma (a f)} = prox_{(sigma a) f}; consistent with Moreau ---- *)
 Theorem C08_scaled_prox_opt : forall a f prox, 0 <= a -> is_opt f prox -> is_opt (fun x => a * f x) (sc_prox a prox).
